@@ -102,7 +102,7 @@ def run(ctx):
 
     phase("mc")
     # 2. Gen: walks for a generic object
-    nwalks = int(os.environ.get("C07_WALKS", "0")) or (1000 if thorough else 30)
+    nwalks = int(os.environ.get("C07_WALKS", "0")) or (1000 if thorough else 40)
     gen = ctx.tlc("Isolation", "IsolationGen.cfg", workers=1, timeout=1500,
                   consts={"NCases": nwalks, "MinOps": 20, "MaxOps": 100 if thorough else 60})
     walks = gen.cases()
@@ -267,16 +267,26 @@ MANIFEST = {
                  '(deep copy at every crossing, re-comparison after every step, in-place scribbling of arguments after the '
                  'write returned, full read-back before/after), TLC evaluates the three statements on every logged step',
     'text': 'Isolation.tla models message objects as heap cells, one of them the stored state; TLC checks on every '
-            'behaviour of a 5-6 cell heap that clone-on-write keeps (1) every handed-out cell equal to the content frozen '
+            'behaviour of a 5-6 cell heap, from both constructions (nothing stored yet / initial value), that '
+            'clone-on-write keeps (1) every handed-out cell equal to the content frozen '
             'when it was handed out, (2) the stored content independent of later scribbles on cells the caller handed in, '
-            '(3) reads, rechecks and forgets leaving the stored content untouched, and that each of three deviations seen in '
-            'real code violates the matching statement. TLC then prints 50 (quick) / 1000 (thorough) walks of 20-100 steps; '
+            '(3) reads, rechecks and forgets leaving the stored content untouched, and that each of five deviations seen in '
+            'real code (keep the caller\'s object always / only on the first write to an empty object, write in place, '
+            'a read that edits its result, a write hook that edits the old value) violates the matching statement. TLC then prints 40 (quick) / 1000 (thorough) walks of 20-100 steps; '
             'each is executed on resource.Value, resource.Collection (Get/List/Add/Update/Delete/Pull/PullID, masks, '
             'interceptors, include, id interceptor, equivalence, expected value) and on the public methods of the trait '
             'models listed in the evidence (parent, metadata + its collection, enter/leave, waste, electric, vending, '
             'booking, hail, publication, fan speed, mode, on/off, light, open/close, meter, energy storage, air quality, '
             'air temperature, occupancy, access, press) and of the memory devices (air temperature, count, emergency, '
-            'speaker, light: Get/Update/Pull through a fake server stream). Every message crossing the boundary is cloned at that moment; '
+            'speaker, light: Get/Update/Pull through a fake server stream), and on the RPC layer: every ModelServer is '
+            'driven reflectively through the grpc.ServiceDesc it registers (all unary and server-streaming methods, '
+            'called through the generated handlers so that request and response objects are the ones the server '
+            'sees, requests filled from the descriptor with ids/versions harvested from earlier responses), in the same '
+            'walk as the operations of the model underneath - so snapshots from earlier results and events are '
+            're-examined after ANY later RPC, including those that add interceptors or callbacks handed the live old '
+            'value (relative mode/fan-speed updates, publication acknowledgement). Each walk names its construction '
+            '(absent: Value without initial value, empty collection, package defaults; present: initial value / '
+            'records), so the first write to an object that holds nothing is covered. Every message crossing the boundary is cloned at that moment; '
             'after every later call, scribble or recheck all live handed-out messages (at most 200) are compared with their '
             'clones and the full read-back is digested. Conformance on the generated walks plus bounded model checking of '
             'the design; not a proof. Pointer identity is deliberately not asserted, only change over time.',
@@ -284,7 +294,8 @@ MANIFEST = {
             'the harness tables (one closure per operation) registering every crossing. Events are collected by '
             'goroutines and the harness waits for them to go quiet after each step, so an event can occasionally be '
             'registered one step late (it is then frozen later; nothing is reported falsely). Messages given to '
-            'constructors, the caller\'s argument during the call, ModelServers (gRPC layer over the models) and the '
+            'constructors, the caller\'s argument during the call, exported ModelServer methods that are not RPCs of the '
+            'registered service (listed under methods_unbound), presspb.ModelServer (implements no RPC of PressApi) and the '
             'tweening goroutine of the light memory device are out of scope; the read-back of a model is what its '
             'public API exposes (internal preset tables are seen through ListPresets / the preset reported by '
             'GetPositions).'}
